@@ -28,10 +28,12 @@ CHECKS = {
             quick="contents {LCG, 0x00.., 0xff..}; SHA-256/SHA-1/MD5: fixed point over raw contexts, message length <= 1000, Update sizes 0..200; "
                   "their HMACs: length <= 400, sizes 0..130, key lengths {0,1,20,31,32,33,63,64,65,127,128,129,200}; CRC32C: length <= 400, "
                   "Update sizes {0..40,63,64,65} at every alignment 0..15; PBKDF2: passwdlen {0,1,64,65,100} x "
-                  "saltlen {0,1,51,52,59,60,61,64,119,120} x c {1,2,3,10} x dkLen {0,1,31,32,33,63,64,65,100}; each run twice: accelerated build and portable build",
+                  "saltlen {0,1,51,52,59,60,61,64,119,120} x c {1,2,3,10} x dkLen {0,1,31,32,33,63,64,65,100}; the 2^29-byte counter-carry window (see thorough); "
+                  "CRC32C single Update calls of 2^32+d bytes, (d, alignment) in {(45,1),(8,0),(0,5),(-1,0),(7,7),(8,3)}; each run twice: accelerated build and portable build",
             thorough="hashes: length <= 4000, Update sizes 0..300; HMACs: length <= 1000, sizes 0..200, 13 key lengths; CRC32C: length <= 2000, sizes 0..200, "
                      "alignments 0..15; PBKDF2: 11 passwdlen x saltlen 0..130 x c {1,2,3,10,33} x 25 dkLen up to 257; plus the 2^32-bit counter carry "
-                     "of SHA-1/MD5/SHA-256: after 2^29-192 bytes absorbed in 1 MiB calls, window [2^29-192, 2^29+192] with sizes " + K19),
+                     "of SHA-1/MD5/SHA-256: after 2^29-192 bytes absorbed in 1 MiB calls, window [2^29-192, 2^29+192] with sizes " + K19 +
+                     "; CRC32C single Update calls of 2^32+d bytes for 13 (d, alignment) pairs, d in [-1, 4096]"),
         explanation="states = distinct raw context byte strings (+ absorbed length); transitions = real Update calls executed from a restored "
                     "context; every state is finalised on a copy and compared with OpenSSL / GF(2) long division, so every transition is a "
                     "validated implementation step. PBKDF2 tuples are counted as one state + one transition each.",
@@ -48,7 +50,7 @@ CLAIMS = {
              "long division), and the one-shot *_Buf must agree. This covers every partition of every prefix (<= L) of the message into "
              "call sizes from K, at every CRC buffer alignment 0..15, for 13 HMAC key lengths. PBKDF2-HMAC-SHA256 is enumerated over a "
              "(passwdlen, saltlen, c, dkLen) grid against PKCS5_PBKDF2_HMAC with canaries behind buf[dkLen].",
-        note="Trusted: OpenSSL libcrypto as oracle (libcperciva's hashes do not use it), engine/ref/ref_crc32c.c (30 lines), clang ASan/UBSan. "
+        note="Trusted: OpenSSL libcrypto as oracle (libcperciva's hashes do not use it), engine/ref/ref_crc32c.c (bitwise long division; for the >= 4 GiB calls the same remainder by polynomial arithmetic on the repeated 4 MiB block, cross-checked against the bitwise one), clang ASan/UBSan. "
              "Bounded: three message contents, lengths <= L, sizes in K (see evidence coverage.bounds); not covered: the 2^61-byte wrap of the bit counters.",
         technique="explicit-state model checking (BFS with closure) of the real streaming contexts against independent oracles; exhaustive grid for PBKDF2",
         engine="es"),
